@@ -203,7 +203,7 @@ def supp_resolve(P, rel, filename):
         return 'EXC:%s' % type(e).__name__
 
 
-def check_tree(workdir, t1, t2, top2, order, part, extensions=False):
+def check_tree(workdir, t1, t2, top2, order, part, extensions=False, root_init=False):
     """one pair of roots in one order -> list of (sig, what)"""
     out = []
     seen = set()
@@ -217,6 +217,9 @@ def check_tree(workdir, t1, t2, top2, order, part, extensions=False):
     r1, r2 = os.path.join(workdir, 'r1'), os.path.join(workdir, 'r2')
     f1 = materialise(r1, t1)
     f2 = materialise(r2, t2, top2)
+    if root_init:
+        # a source root that holds an __init__.py itself (tests/, a package directory used as root): module names still start there
+        open(os.path.join(r1, '__init__.py'), 'w').close()
     if extensions:
         add_fake_extensions(r1, t1)
     importlib.invalidate_caches()
@@ -466,9 +469,10 @@ def unit(arg):
                 part.count('evaluations')
                 wd = os.path.join(workdir, 't%d_%d' % (lo + i, order))
                 ext = (lo + i) % 7 == 0
-                for sig, what in check_tree(wd, t1, t2, top2, order, part, extensions=ext):
+                rinit = (lo + i) % 5 == 1
+                for sig, what in check_tree(wd, t1, t2, top2, order, part, extensions=ext, root_init=rinit):
                     part.violation(sig, what + '\n tree: root r1=%r root r2=%r extra top modules in r2=%r order=%s' % (t1, t2, top2, 'r1,r2' if order == 0 else 'r2,r1'),
-                                   {'kind': 'tree', 't1': t1, 't2': t2, 'top2': list(top2), 'order': order, 'ext': ext})
+                                   {'kind': 'tree', 't1': t1, 't2': t2, 'top2': list(top2), 'order': order, 'ext': ext, 'root_init': rinit})
                 shutil.rmtree(wd, ignore_errors=True)
             if (lo + i) % 400 == 3:
                 part.sample({'root1': repr(t1), 'root2': repr(t2), 'top2': list(top2)}, limit=2)
@@ -504,7 +508,7 @@ def replay(w):
         return check_shadowed_stdlib(part)
     wd = tempfile.mkdtemp(prefix='c07r_')
     try:
-        return check_tree(os.path.join(wd, 't'), to_t(w['t1']), to_t(w['t2']), tuple(w['top2']), w['order'], part, extensions=w.get('ext', False))
+        return check_tree(os.path.join(wd, 't'), to_t(w['t1']), to_t(w['t2']), tuple(w['top2']), w['order'], part, extensions=w.get('ext', False), root_init=w.get('root_init', False))
     finally:
         shutil.rmtree(wd, ignore_errors=True)
 
